@@ -298,6 +298,16 @@ func (e *Enc) callStatic(fr *Frame, fn *ssa.Function, args []Val, bind []Val, gu
 	if opaque {
 		ct = nil
 	}
+	if e.contract != nil && e.contract.Opts["effectfree"] != "" {
+		// `opt effectfree=Name1,Name2`: calls of these functions return an arbitrary result and do
+		// not touch modelled state (assumption, reported in the evidence)
+		for _, nm := range strings.Split(e.contract.Opts["effectfree"], ",") {
+			if strings.TrimSpace(nm) == fn.Name() {
+				e.noteAssumed(e.fnName + ": " + fn.String() + " has no effect on modelled state and an arbitrary result (opt effectfree)")
+				return e.freshResults(fn.Signature, hint)
+			}
+		}
+	}
 	if ct != nil && !ct.Inline {
 		return e.applyContract(fr, ct, fn, fn.Signature, fn.Name(), args, guard, st, pos)
 	}
